@@ -175,7 +175,10 @@ def finish(rec, tier, seed, jobs):
                 rec.classes[f"{CHECK}:known:{f['id']}"] += 1
             else:
                 rec.violation(CHECK, v, {"cell": cell, "N": N, "seed": seed, "R": 2 * R, "alpha": 1e-4})
-        if len(sds) == 2:
+        # (only in ESS mode, where the whole schedule scales with the particle count; in volume-variation mode the step length is set
+        # by the metric target, larger batches take longer temperature steps and the spread of the evidence is - by design - governed
+        # by that target: sd 0.118 at N=32 vs 0.113 at N=128 on the unchanged tree, vv=0.03)
+        if len(sds) == 2 and cell.get("vv") is None:
             sN, s4 = sds[cell["N"]], sds[4 * cell["N"]]
             # F-test style guard: with R replicas the sd ratio itself fluctuates by ~1/sqrt(R); 0.8 is asserted with that slack
             slack = 1.0 + 3.0 / np.sqrt(2.0 * (R - 1))
